@@ -252,6 +252,87 @@ unsigned int sleep(unsigned int s) {
 }
 }
 
+
+static std::set<FILE*> g_closed_files;
+static bool g_closed_files_contains(FILE* f) { return g_closed_files.count(f) != 0; }
+static void g_closed_files_add(FILE* f) { g_closed_files.insert(f); }
+
+// ---------------------------------------------------------------------------
+// Descriptor layer: fopen/fclose/open/close are interposed (the executable's
+// definitions win over libc's for libchibi and the modules) so that every
+// release is logged with its event sequence number and double releases are
+// verdicts rather than silent reuse of somebody else's descriptor.
+
+static bool g_fd_track = false;
+static std::set<FILE*> g_live_files;
+static std::set<int> g_tracked_fds;
+
+static int count_open_fds() {
+  int n = 0;
+  for (int fd = 0; fd < 4096; ++fd)
+    if (fcntl(fd, F_GETFD) != -1) ++n;
+  return n;
+}
+
+extern "C" {
+typedef FILE* (*fopen_fn)(const char*, const char*);
+typedef int (*fclose_fn)(FILE*);
+typedef int (*close_fn)(int);
+
+FILE* fopen(const char* path, const char* mode) {
+  static fopen_fn real = (fopen_fn)dlsym(RTLD_NEXT, "fopen");
+  FILE* f = real(path, mode);
+  if (g_fd_track) {
+    if (f) {
+      g_live_files.insert(f);
+      g_closed_files.erase(f);
+      g_tracked_fds.insert(fileno(f));
+      W.event("fopen fd=%d", fileno(f));
+      W.counters["fopen_ok"]++;
+    } else {
+      W.event("fopen-failed errno=%d", errno);
+      W.counters[errno == EMFILE ? "fopen_emfile" : "fopen_failed"]++;
+    }
+  }
+  return f;
+}
+int fclose(FILE* f) {
+  static fclose_fn real = (fclose_fn)dlsym(RTLD_NEXT, "fclose");
+  if (g_fd_track && f) {
+    auto it = g_live_files.find(f);
+    if (it != g_live_files.end()) {
+      int fd = fileno(f);
+      g_live_files.erase(it);
+      g_tracked_fds.erase(fd);
+      W.event("fclose fd=%d", fd);
+      W.counters["fclose"]++;
+    } else if (g_closed_files_contains(f)) {
+      W.violate("fd:double-close", "fclose called twice on the same stream");
+      return EOF;
+    }
+    g_closed_files_add(f);
+  }
+  return real(f);
+}
+int close(int fd) {
+  static close_fn real = (close_fn)dlsym(RTLD_NEXT, "close");
+  int r = real(fd);
+  if (g_fd_track) {
+    int e = errno;
+    W.event("close fd=%d r=%d", fd, r);
+    W.counters["close"]++;
+    if (r != 0 && e == EBADF) {
+      char msg[96];
+      snprintf(msg, sizeof msg, "close(%d) on a descriptor that is not open (released twice)", fd);
+      W.violate("fd:double-close", msg);
+    }
+    g_tracked_fds.erase(fd);
+    errno = e;
+  }
+  return r;
+}
+}
+
 // ---------------------------------------------------------------------------
 // Heap walking / poisoning (simulator code over the public macros of sexp.h)
 
@@ -858,7 +939,15 @@ static sexp sim_count_proc(sexp ctx, sexp self, sexp_sint_t n, sexp name) {
   return SEXP_VOID;
 }
 
+static sexp sim_open_fd_proc(sexp ctx, sexp self, sexp_sint_t n, sexp noclose) {
+  (void)self; (void)n;
+  int fd = open("/repo/README.md", O_RDONLY);
+  W.event("sim-open-fd fd=%d", fd);
+  return sexp_make_fileno(ctx, sexp_make_fixnum(fd), sexp_truep(noclose) ? SEXP_TRUE : SEXP_FALSE);
+}
+
 static void define_sim_procs(sexp ctx, sexp env) {
+  sexp_define_foreign(ctx, env, "sim-open-fd", 1, sim_open_fd_proc);
   sexp_define_foreign(ctx, env, "sim-gc", 0, sim_gc_proc);
   sexp_define_foreign(ctx, env, "sim-mark", 1, sim_mark_proc);
   sexp_define_foreign(ctx, env, "sim-probe", 1, sim_probe_proc);
@@ -1053,6 +1142,9 @@ static void run_eval_step(sexp ctx, sexp env, const std::string& src, StepResult
   sexp_gc_release4(ctx);
 }
 
+static int g_base_fds = 0;
+static bool g_destroyed = false;
+
 static void run_plan(const js::Value& plan) {
   g_plan = &plan;
   g_plan_id = plan.geti("id", 0);
@@ -1078,7 +1170,14 @@ static void run_plan(const js::Value& plan) {
     W.real_sched = nullptr; W.real_sched_op = nullptr;
     install_sched_shim(ctx);
   }
+  if (knobs && knobs->geti("nofile", 0) > 0) {
+    struct rlimit rl;
+    rl.rlim_cur = rl.rlim_max = knobs->geti("nofile", 0);
+    setrlimit(RLIMIT_NOFILE, &rl);
+  }
   capture_install(ctx, env);
+  g_base_fds = count_open_fds();
+  g_fd_track = true;
   if (knobs && !knobs->getb("simplify", true)) sexp_global(ctx, SEXP_G_OPTIMIZATIONS) = SEXP_NULL;
   if (knobs && knobs->getb("no_tail_calls", false)) sexp_global(ctx, SEXP_G_NO_TAIL_CALLS_P) = SEXP_TRUE;
   for (sexp_heap h = sexp_context_heap(ctx); h; h = h->next) {
@@ -1098,8 +1197,22 @@ static void run_plan(const js::Value& plan) {
       uint64_t a0 = W.nalloc;
       std::string op = st.gets("op", "eval");
       W.event("step %d %s", W.cur_step, op.c_str());
-      if (op == "eval") {
+      if (g_destroyed && op != "fdcount") {
+        sr.res = "context-destroyed"; sr.exc = true;
+      } else if (op == "eval") {
         run_eval_step(ctx, env, st.gets("src"), sr);
+      } else if (op == "fdcount") {
+        sr.res = std::to_string(count_open_fds() - g_base_fds);
+      } else if (op == "destroy") {
+        W.gc_armed = false;
+        sexp r = sexp_destroy_context(ctx);
+        sr.res = r == SEXP_TRUE ? "destroyed" : "destroy-failed";
+        sr.out = "";
+        W.event("step-done %d destroy", W.cur_step);
+        g_results.push_back(sr);
+        g_destroyed = true;
+        W.ctx = nullptr;
+        continue;
       } else if (op == "gc") {
         W.forcing = true; sexp_gc(ctx, NULL); W.forcing = false; W.gc_forced++;
         sr.res = "gc";
@@ -1108,8 +1221,10 @@ static void run_plan(const js::Value& plan) {
       }
       sr.allocs = W.nalloc - a0;
       W.gc_armed = false;
-      sr.out = capture_take(ctx);
-      sr.err = capture_take_from(ctx, g_err);
+      if (!g_destroyed) {
+        sr.out = capture_take(ctx);
+        sr.err = capture_take_from(ctx, g_err);
+      }
       if (sr.err.size() > 600) sr.err.resize(600);
       W.gc_armed = true;
       uint64_t h = fnv1a(FNV0, sr.out.data(), sr.out.size());
